@@ -330,6 +330,8 @@ class Generator:
         for f in flags:
             if f == "ext_eq":
                 pre += "#[verifier::ext_equal]\n"
+            elif f == "external_body":
+                pre += "#[verifier::external_body]\n#[verifier::reject_recursive_types(T)]\n"
             elif f == "reject_recursive":
                 pre += "#[verifier::reject_recursive_types(T)]\n"
         line0 = it.line
@@ -346,6 +348,14 @@ class Generator:
             raise ExtractError("lost anchor: const %s in %s" % (name, fname))
         it = c[0]
         text = sf.text[sf.ct[it.h0].start:sf.ct[it.end].end]
+        # R0: inside verus! a const needs its elided `'static` lifetimes spelled out
+        m = re.match(r"(?s)(.*?:)(.*?)(=.*)", text)
+        if m:
+            ty, n = re.subn(r"&(?!\s*')", "&'static ", m.group(2))
+            if n:
+                self.count("R0-const-static-lifetime", n)
+            text = m.group(1) + ty + m.group(3)
+        self.emit("#[verifier::external_body]   // the constant's value is irrelevant to every contract")
         self.out.append((text, (fname, it.line)))
 
     # ------------------------------------------------------------------
